@@ -36,7 +36,7 @@ def run(ctx):
     cov = dict(states=g["distinct"] + st["distinct"], transitions=g["generated"] + st["generated"],
                traces_validated_against_impl=len(lines), evaluations=len(lines), distinct_nontrivial=len(keys),
                rule="every subset of the 8-key neighbourhood (own index/name/ALL, neighbours differing in application, code, R bit) x 6 messages, plus re-registration of registered keys, "
-                    "replayed on a real ServeMux directly and (every 8th case) behind a connection over memnet; non-trivial = at least two registrations; distinct by (path, message, registration history)",
+                    "replayed on a real ServeMux directly and (every 8th case) behind a connection over memnet; non-trivial = at least two registrations; distinct by (path, message, registration history) Since extended: base commands under an application id no dictionary defines; every third case after a warm-up dispatch of the same index carrying a dictionary that lacks the command.",
                samples=[dict(msg=l["msg"], regs=l["regs"][:3], fired=l["fired"], reports=l["reports"]) for l in lines[5:len(lines):max(1, len(lines) // 3)]][:3],
                exhaustive=True, rejected_lines=len(bad), known_finding_hits={k: n for k, (n, _) in v.hits.items()})
     rc = v.finish()
